@@ -28,7 +28,7 @@ TIERS = {
                   stok=["a", " ", "1", "+", "%", "&", "=", "?", "#", "^", "%41"], maxsearch=2,
                   sshapes=["a 1", "a b 1", "/zz 0", "x HTTP/1.0", "GET /zz HTTP/1.0", "gemini://localhost/zz",
                            "{" * 14, "{" * 44], deep=["{{"],
-                  ssels=["/echo.pyg", "/echo.pyg?arg", "/e#.pyg", "/e%41.pyg", "/e^.pyg", "/e b.pyg"],
+                  ssels=["/echo.pyg", "/echo.pyg?arg", "/e#.pyg", "/e%41.pyg", "/e^.pyg", "/e b.pyg", "echo.pyg"],
                   kinds=["file", "dir", "mbox", "maildir", "mapdir", "zip"], inner=["a b", "^", "?"],
                   views=ALL_VIEWS, hls=["default", "full"], srvports=[70, 7070],
                   cfgs=[("on", "always"), ("off", "unsupported"), ("on", "never")], tree_hl_full=("zip",)),
@@ -42,7 +42,7 @@ TIERS = {
                      sshapes=["a 1", "a b 1", "python 3", "route 66 1", "/zz 0", "localhost /zz 0", "x HTTP/1.0",
                               "GET /zz HTTP/1.0", "GET /wap/zz HTTP/1.0", "gemini://localhost/zz", "{" * 3, "{" * 14,
                               "{" * 44, "}" * 44, "{" * 190], deep=["{{", "}}", "{^"],
-                     ssels=["/echo.pyg", "/echo.pyg?arg", "/e#.pyg", "/e%41.pyg", "/e^.pyg", "/e b.pyg", "/e+.pyg",
+                     ssels=["/echo.pyg", "/echo.pyg?arg", "/e#.pyg", "/e%41.pyg", "/e^.pyg", "/e b.pyg", "echo.pyg", "/e+.pyg",
                             "/e&.pyg?a=b"],
                      kinds=["file", "dir", "mbox", "maildir", "mapdir", "zip"], inner=["a b", "^", "?", "|", "%41", "#"],
                      views=ALL_VIEWS, hls=["default", "full"], srvports=[70, 7070, 1],
@@ -182,9 +182,11 @@ def build_site(w, site, k):
         rows = []
         for sel in site.get("ssels", []):          # further search items: PYG files with reserved characters in
             real = sel.split("?")[0]                 # their names, Virtual "?args" variants through the link file
-            if real != "/echo.pyg":
+            if real not in ("/echo.pyg", "echo.pyg"):
                 w.write(L.fsname(real[1:], k.hi_byte), ECHO_PYG, mode=0o755)
-            if "?" in sel:
+            if not sel.startswith("/"):                # authored with this server's own host and port: stays slash-less
+                rows.append({"name": "Search:" + sel, "type": "7", "sel": sel, "host": k.server_name, "port": k.server_port})
+            elif "?" in sel:
                 rows.append({"name": "Search:" + sel, "type": "7", "sel": sel, "host": "", "port": 0})
         if rows:
             w.write(".Links", links_file(rows, k))
@@ -254,6 +256,8 @@ def do_search(w, p, isel, s, k):
     if item is None:
         return None
     t = item["t"]
+    if not L.is_local(p, t, k):
+        return "skip"                  # p renders the item as a foreign URL: no search form to type into
     chain = []
     if p == "M":
         rq = L.follow(p, t, base, "", k)
@@ -311,6 +315,8 @@ def _run_site(site):
             for isel, s in site["searches"]:
                 got = do_search(w, p, isel, s, k)
                 tag = isel + " <- " + s
+                if got == "skip":
+                    continue
                 if got is None:
                     out.append((p, tag, None, None))
                 else:
@@ -451,7 +457,7 @@ def make_sites(t, model, port, hl, seed):
         if t["tree_hl_full"]:
             # quick tier: strings of two tokens only through a plain item and the item with a blank in its selector;
             # single tokens and the whole-string shapes through every item (thorough: every pair TLC enumerated)
-            ss = [x for x in ss if x[0] in ("/echo.pyg", "/e b.pyg") or x[1] in t["stok"] or x[1] in t["sshapes"]]
+            ss = [x for x in ss if x[0] in ("/echo.pyg", "/e b.pyg", "echo.pyg") or x[1] in t["stok"] or x[1] in t["sshapes"]]
         for i in range(0, len(ss), 24):
             sites.append({"what": "search", "c": base_c, "ents": [], "cfg": {"ah": "on", "ae": "always", "port": port},
                           "searches": [list(x) for x in ss[i:i + 24]], "ssels": t["ssels"]})
